@@ -50,9 +50,10 @@ inductive Evt where
   | cfgFn (f cfg : Nat)                      -- `apply_cfg` / `apply_cfg_factory` closure invoked
 deriving Repr, DecidableEq
 
-/-- transparent wrappers: `boxed::service`, `boxed::rc_service`, `Rc<S>`, `RefCell<S>`, `&S`, `Box<S>` -/
+/-- transparent wrappers: `boxed::service`, `boxed::rc_service`, `Rc<S>`, `RefCell<S>`, `&S`, `Box<S>`,
+`&mut S` -/
 inductive Wrap where
-  | boxed | rcBoxed | rc | refCell | ref | box
+  | boxed | rcBoxed | rc | refCell | ref | box | refMut
 deriving Repr, DecidableEq
 
 /-- what the closure given to `apply_fn` does with `(req, &service)` -/
@@ -222,13 +223,15 @@ inductive Fac where
   | mapInitErr (a : Fac) (f : Nat)
   | andThen (a b : Fac)
   | applyFn (a : Fac) (kind : AKind) (k : Nat) -- `apply_fn_factory`
-  | transform (t tp : Nat) (tok : Bool) (a : Fac)   -- `apply(transform, factory)`
+  /-- `apply(transform, factory)`; with `mie = some m` the transform is
+  `TransformExt::map_init_err(transform, m)` (transform_err.rs) -/
+  | transform (t tp : Nat) (tok : Bool) (mie : Option Nat) (a : Fac)
   | applyCfg (s : Svc) (f ip : Nat) (iok : Bool)    -- `apply_cfg(service, f)`
   | applyCfgFac (a : Fac) (f ip : Nat) (iok : Bool) -- `apply_cfg_factory(factory, f)`
   | mapConfig (a : Fac) (f : Nat)
   | unitConfig (a : Fac)
   | boxed (a : Fac)                            -- `boxed::factory`
-  | rc (a : Fac)                               -- `Rc<factory>`
+  | rc (a : Fac)                               -- `Rc<factory>` / `Arc<factory>`
 deriving Repr, DecidableEq, Inhabited
 
 inductive IFut where
@@ -240,7 +243,7 @@ inductive IFut where
   | applyFnI (fu : IFut) (kind : AKind) (k : Nat)
   | boxedI (fu : IFut)
   | andThenI (fa fb : IFut) (a b : Option Svc) -- and_then.rs:185-248 (join with `is_none` guards)
-  | transA (fu : IFut) (t tp : Nat) (tok : Bool)
+  | transA (fu : IFut) (t tp : Nat) (tok : Bool) (mie : Option Nat)
   | transB (fu : IFut)
   | cfgA (fu : IFut) (f ip : Nat) (iok : Bool) (cfg : Nat)   -- apply_cfg.rs:150-232
   | cfgB (svc : Svc) (f ip : Nat) (iok : Bool) (cfg : Nat)
@@ -268,7 +271,7 @@ def newService : Fac → Nat → IFut × List Evt
   | .andThen a b, cfg =>
     (.andThenI (newService a cfg).1 (newService b cfg).1 none none, (newService a cfg).2 ++ (newService b cfg).2)
   | .applyFn a kind k, cfg => (.applyFnI (newService a cfg).1 kind k, (newService a cfg).2)
-  | .transform t tp tok a, cfg => (.transA (newService a cfg).1 t tp tok, (newService a cfg).2)
+  | .transform t tp tok mie a, cfg => (.transA (newService a cfg).1 t tp tok mie, (newService a cfg).2)
   | .applyCfg s f ip iok, cfg => (.leafI f ip (cfgRes s f iok cfg) false, [.cfgFn f cfg])
   | .applyCfgFac a f ip iok, cfg => (.cfgA (newService a 0).1 f ip iok cfg, (newService a 0).2)
   | .mapConfig a f, cfg => ((newService a (mapFn f cfg)).1, .cfgMapped f cfg :: (newService a (mapFn f cfg)).2)
@@ -285,6 +288,17 @@ def pollLeafI (id pend : Nat) (res : IRes) (fin : Bool) (w : Nat) : IFut × Opti
   | true, p => (.leafI id p res true, none, [.irepoll id w])
   | false, 0 => (.leafI id 0 res true, some res, [.ipolled id w (some (iresOut res))])
   | false, p+1 => (.leafI id p res false, none, [.ipolled id w none])
+
+/-- first poll of the future returned by `new_transform` (a scripted leaf future); with
+`mie = some m` it is wrapped in a `TransformMapInitErrFuture` (transform_err.rs:80-95), which maps an
+`Err` with `m` and leaves `Pending` / `Ok` alone -/
+def pollTrans (t tp : Nat) (res : IRes) (mie : Option Nat) (w : Nat) : IFut × Option IRes × List Evt :=
+  match mie with
+  | none => pollLeafI t tp res false w
+  | some m =>
+    match pollLeafI t tp res false w with
+    | (fu, some (.err e), l) => (.mapInitErrI fu m, some (.err (mapFn m e)), l ++ [.initErrMapped m e])
+    | (fu, r, l) => (.mapInitErrI fu m, r, l)
 
 /-- state B of apply_cfg_factory: wait for the created service to be ready, then call the closure
 and continue into its future within the same poll -/
@@ -347,12 +361,12 @@ def ipoll : IFut → Nat → IFut × Option IRes × List Evt
     | (fa', some (.err e), la) => (.andThenI fa' fb none (some sb), some (.err e), la)
     | (fa', ra, la) => joinDone fa' fb (svcOf ra) (some sb) la
   | .andThenI fa fb (some sa) (some sb), _ => joinDone fa fb (some sa) (some sb) []
-  | .transA fu t tp tok, w =>
+  | .transA fu t tp tok mie, w =>
     match ipoll fu w with
-    | (fu', none, l) => (.transA fu' t tp tok, none, l)
-    | (fu', some (.err e), l) => (.transA fu' t tp tok, some (.err e), l)
+    | (fu', none, l) => (.transA fu' t tp tok mie, none, l)
+    | (fu', some (.err e), l) => (.transA fu' t tp tok mie, some (.err e), l)
     | (_, some (.ok s), l) =>
-      match pollLeafI t tp (transRes s t tok) false w with
+      match pollTrans t tp (transRes s t tok) mie w with
       | (fb, r, l2) => (.transB fb, r, l ++ .newTransform t :: l2)
   | .transB fu, w => match ipoll fu w with | (fu', r, l) => (.transB fu', r, l)
   | .cfgA fu f ip iok cfg, w =>
